@@ -187,8 +187,11 @@ def targets(ctx):
             fails.append(Failure("map_of_wrapper_raises", f"probe|map_of_wrapper|raises_{g.where}", str(g)))
         return Eval(fails, nontrivial=True, labels=["probe"])
 
+    from . import _seq
+
     return [
         Target("corpus_values", make_eval(c), strategy=strat(), quick=700, thorough=8000, time_quick=70),
         Target("known_finding_probes", probe_ev, cases=probe_cases, exhaustive=True, shard_cases=False),
         Target("grammar_schema_values", grammar_ev, strategy=gstrat, quick=3, thorough=40, time_quick=60, time_thorough=900, pin_budget=10, pin_sigs=1),
+        _seq.target("C01"),
     ]
